@@ -312,6 +312,16 @@ func runC07(tier string) int {
 		}
 		classAtoms = append(classAtoms, wordAtom(wd, glyphs...))
 	}
+	// ... and words made of or containing backslashes that are not break codes (one, two and three in a row, before and after
+	// a letter). A text in which such a backslash is directly followed by a break code or by n / l / p / N reads two ways and
+	// is left out.
+	for _, wd := range []string{`\`, `\\`, `\\\`, `a\`, `\a`, `a\\b`, `\\a`} {
+		var glyphs []string
+		for _, g := range wd {
+			glyphs = append(glyphs, string(g))
+		}
+		classAtoms = append(classAtoms, wordAtom(wd, glyphs...))
+	}
 	all := append(append([]fmtAtom{}, atoms...), classAtoms...)
 	nAll, nB, nC := uint64(len(all)), uint64(len(atoms)), uint64(len(classAtoms))
 	classDone := r.Parallel(nAll+nAll*nAll+nB*nC*nB, func(w int, idx uint64) {
@@ -325,6 +335,11 @@ func runC07(tier string) int {
 		default:
 			x := idx - nAll - nAll*nAll
 			seq = []fmtAtom{atoms[x%nB], classAtoms[(x/nB)%nC], atoms[x/nB/nC]}
+		}
+		for i := 0; i+1 < len(seq); i++ {
+			if strings.HasSuffix(seq[i].s, `\`) && (seq[i+1].kind == 2 || strings.HasPrefix(seq[i+1].s, `\`) || strings.ContainsAny(seq[i+1].s[:1], "nlpN")) {
+				return // ambiguous reading (see above); backslash runs are atoms of their own
+			}
 		}
 		r.Add("class_rune_texts", 1)
 		c07EvalSeq(r, seq)
